@@ -301,8 +301,33 @@ def main():
         # correspondence workloads -------------------------------------------------
         wls = cfg["workloads"](tier, seed)
         if replay:
+            # replay of a recorded violation: (1) the recorded line is judged again by the driver (model side);
+            # (2) the workload it came from is run again with the recorded seed and tier on the CURRENT tree and the
+            # line with the same inputs is looked up: what the implementation answers now is judged too.
             rp = json.load(open(replay))
-            wls = [w for w in wls if w.get("replayable")]  # replay handled below
+            if rp.get("kind") != "failing-input" or "line" not in rp:
+                print("replay: %s records no failing input (%s); re-run the check itself: python3 %s %s" % (replay, rp.get("kind"), __file__, pid))
+                return 1
+            p = subprocess.run([DRIVER], input=rp["line"] + "\n", stdout=subprocess.PIPE, text=True)
+            v_old = p.stdout.strip()
+            print("recorded line, judged now : %s" % v_old[:300])
+            rseed, rtier = rp.get("seed", seed), rp.get("tier", tier)
+            lhs = rp["line"].split(" => ")[0]
+            status = "input-not-regenerated"
+            for w in cfg["workloads"](rtier, rseed):
+                if w["tag"] != rp.get("workload"):
+                    continue
+                for line, verdict in run_workload(hbins[w["harness"]], w["args"], "%s_%s_replay" % (pid, w["tag"]), w.get("env")):
+                    if line.split(" => ")[0] == lhs:
+                        print("implementation answers now: %s" % line.split(" => ")[1][:300])
+                        print("judged                    : %s" % verdict[:300])
+                        status = "still-failing" if not verdict.startswith("ok") else "passes-now"
+                        break
+            print("replay: %s" % status)
+            if status == "still-failing" or (status == "input-not-regenerated" and not v_old.startswith("ok")):
+                print("VIOLATION property=%s replay=%s" % (pid, replay))
+                return 1
+            return 0
         for w in wls:
             res = run_workload(hbins[w["harness"]], w["args"], "%s_%s" % (pid, w["tag"]), w.get("env"))
             # consequences of a known finding: a failing line whose key token (the last input token, e.g. the id of the
@@ -340,7 +365,7 @@ def main():
                     continue
                 if len(violations) < 20:
                     violations.append((verdict, {"property": pid, "kind": "failing-input", "workload": w["tag"],
-                                                 "line": line, "verdict": verdict,
+                                                 "line": line, "verdict": verdict, "seed": seed, "tier": tier,
                                                  "how_to_replay": "echo '<line>' | %s ; the harness recomputes the right-hand side with: %s replay" % (DRIVER, hbins[w["harness"]])}, True))
         # broken obligations without failing input --------------------------------------
         if broken and not violations:
